@@ -8,7 +8,11 @@
 //!  * `coefflist`  `encode_f64_polynomial`: lists of every length 1..N
 //!  * `decode_borrow` decoding of negative coefficients when a word of the total modulus is smaller than the
 //!                 corresponding word of the magnitude (word-wise subtraction in doubles cancels)
-//! each of the middle three over: prime chains x every level (key level included) x scale grid crossing the
+//!  * `big_vector`, `big_coefflist`, `big_primes`  production sizes: N = 32..1024 (8192 thorough) with EVERY input
+//!                 length on structured families (unit / constant / alternating / ramp), 1..20 primes at the level
+//!                 for all five entry points on the 64-bit, 128-bit and multi-word paths at N = 8 and N = 1024
+//!                 (4096 thorough) — see the block comment above `Fam`
+//! each of `single`, `coefflist`, `vector` over: prime chains x every level (key level included) x scale grid crossing the
 //! 64- and 128-bit paths from both sides (plus non-positive / NaN / oversized scales) x value groups
 //! (plain alphabet, 2^64 / 2^128 edge values, values placed around 2^(B-3), q/2, 2^(B-1), q).
 //!
@@ -40,6 +44,8 @@ pub fn describe(rep: &Report) {
     rep.assume("double-precision allowance per coefficient: 1/2 + N*max(1,log2 N)*2^-52*scale*|v|_inf for the vector/complex entry points; exact equality with round(v*scale) for the real, integer and coefficient-list entry points whenever v*scale is a double (always for power-of-two scales), else 1 + 2^-52*|v*scale|");
     rep.assume("admissibility model: scale must be > 0 (NaN is not) and < 2^(B-1), B = bit length of the level's modulus q; magnitudes below 2^(B-3) must be accepted, magnitudes >= q/2 (no centred representative) must be refused, in between either answer is accepted but an accepted encoding must be correct; a refusal must be an [Invalid argument] panic (an arithmetic-overflow panic is a refusal only in overflow-checked builds)");
     rep.assume("scales and scaled magnitudes are kept below 2^1000 (doubles end at 2^1024); NaN input values and the empty coefficient list are observed, not judged");
+    rep.assume("production-size sections (big_*): case = (parameter set, level, entry point, scale 2^e, family, list of input lengths) resp. (parameter set, level, entry point); the check loops over the lengths resp. over the scales and inputs. Only inputs that must be accepted (scaled magnitude below 2^(B-3)) are enumerated there. Reference: the naive embedding sum of refmodel::embed accumulated slot by slot with tabulated sin/cos (same terms, same order; equality with inv_embed / fwd_embed for every family and every length is self-tested for N <= 64); plaintexts are compared through the reference NTT refmodel::ntt::fast_ntt / fast_intt (validated against the transform by definition) with the root of the library's table (checked to be a primitive 2N-th root); CRT composition in native 128-bit integers or precomputed BigU terms, re-composed with refmodel::bigu::crt on four coefficients of every plaintext");
+    rep.assume("big_*: structured families instead of the full product: a defect that needs two unrelated non-zero slots at a particular pair of positions AND a particular length is only seen through the ramp (pairwise different values in every position of every length)");
     rep.assume("prime chains: the largest NTT primes of the stated bit sizes (he::chain) plus one searched chain whose modulus has a small low word; not every prime of 20..60 bits");
 }
 
@@ -1065,6 +1071,1008 @@ fn check_borrow(c: &BorrowCase, seed: u64) -> CaseOut {
     CaseOut::pass(borrow, h64(&(borrow, c.value < 0)), 3)
 }
 
+
+// =============================================================================================
+// production-size sections: `big_vector`, `big_coefflist`, `big_primes`
+//
+// Everything the encoder loops over, blocks or indexes is driven across the boundaries 8 .. 4096 (8192): the
+// degree N, the number of values handed in (every length), the number of primes at the level (1..20) and the
+// number of 64-bit words of a scaled coefficient. Large N stays affordable through STRUCTURED families whose
+// reference costs O(N) per input:
+//   * unit slot vectors (closed form: x_k = (2/N) Re(z * zeta^(-g_j k))) with the value in the last / first /
+//     middle slot of an input of every length;
+//   * prefixes of a fixed sequence (constant, alternating, ramp of pairwise different values, a 7-cycle of small
+//     values): the naive sum of `refmodel::embed::inv_embed` is accumulated term by term while the length grows
+//     (same terms, same order, same sin/cos — bit-identical to the naive reference, which the self-test confirms
+//     for N <= 64);
+//   * coefficient lists and the single-value entry points are exact: the expected integer vector is reduced
+//     modulo every prime, transformed with the reference NTT (`refmodel::ntt::fast_ntt`, itself validated against
+//     the transform by definition) and compared with the plaintext word for word — no library transform involved.
+// For the approximate entry points the plaintext is taken back with the reference inverse NTT and composed into one
+// centred integer vector (native 128-bit Garner when the modulus has at most 120 bits, otherwise sum_j
+// [r_j (q/q_j)^-1]_(q_j) * (q/q_j) mod q in BigU; a few coefficients of every plaintext are re-composed with
+// `refmodel::bigu::crt`).
+// Only inputs that MUST be accepted (scaled magnitude below 2^(B-3)) are enumerated here; the admissibility
+// boundary does not depend on the sizes and stays with the sections above.
+// =============================================================================================
+
+use crate::refmodel::ntt::{fast_intt, fast_ntt};
+use std::sync::OnceLock;
+
+#[derive(Serialize, Deserialize, Clone, Copy, Debug, PartialEq, Eq, Hash)]
+pub enum Fam {
+    /// the value in the last position of the input, zeros before it
+    UnitLast,
+    /// the value in position 0, explicit zeros up to the length
+    UnitFirst,
+    /// the value in position len/2
+    UnitMid,
+    /// the same value everywhere
+    Const,
+    /// +value, -value, +value, ...
+    Alt,
+    /// pairwise different values growing with the position
+    Ramp,
+    /// a cycle of 7 small values (|v| < 2), so that the input fits next to any scale up to 2^(B-6)
+    Cycle,
+}
+
+impl Fam {
+    fn name(self) -> &'static str {
+        match self {
+            Fam::UnitLast => "unit-last",
+            Fam::UnitFirst => "unit-first",
+            Fam::UnitMid => "unit-mid",
+            Fam::Const => "const",
+            Fam::Alt => "alt",
+            Fam::Ramp => "ramp",
+            Fam::Cycle => "cycle",
+        }
+    }
+    fn unit_pos(self, len: usize) -> Option<usize> {
+        match self {
+            Fam::UnitLast => Some(len.saturating_sub(1)),
+            Fam::UnitFirst => Some(0),
+            Fam::UnitMid => Some(len / 2),
+            _ => None,
+        }
+    }
+    fn all() -> [Fam; 7] {
+        [Fam::UnitLast, Fam::UnitFirst, Fam::UnitMid, Fam::Const, Fam::Alt, Fam::Ramp, Fam::Cycle]
+    }
+}
+
+/// slot value of the unit / constant / alternating families
+const Z0: C = (-0.75, 0.25);
+/// coefficient value of the unit / constant / alternating lists: rounds AWAY from zero at scale 1 (-3; truncation and
+/// round-half-even give -2)
+const W0: f64 = -2.5;
+
+/// slot j of the prefix families
+fn fam_slot(f: Fam, j: usize) -> C {
+    match f {
+        Fam::Const | Fam::UnitLast | Fam::UnitFirst | Fam::UnitMid => Z0,
+        Fam::Alt => {
+            if j % 2 == 0 {
+                Z0
+            } else {
+                (-Z0.0, -Z0.1)
+            }
+        }
+        Fam::Ramp => (1.0 + 0.5 * j as f64, -0.25 * (j as f64 + 1.0)),
+        Fam::Cycle => [(1.0, 0.0), (0.0, -1.0), (-0.75, 0.25), (0.5, 0.5), (-1.0, -1.0), (0.0, 0.0), (0.3, -0.7)][j % 7],
+    }
+}
+
+/// coefficient k of the prefix lists; the ramp exceeds 2^32 from k = 4096 on and carries the fractions .5 .25 .75 .0
+fn fam_coeff(f: Fam, k: usize) -> f64 {
+    match f {
+        Fam::Const | Fam::UnitLast | Fam::UnitFirst | Fam::UnitMid => W0,
+        Fam::Alt => {
+            if k % 2 == 0 {
+                W0
+            } else {
+                -W0
+            }
+        }
+        Fam::Ramp => {
+            let m = (k as f64 + 1.0) * 1048577.0 + [0.5, 0.25, 0.75, 0.0][k % 4];
+            if k % 3 == 1 {
+                -m
+            } else {
+                m
+            }
+        }
+        Fam::Cycle => [1.5, -0.3, 0.75, -1.0, 0.0, 1.9999999999999998, -0.5][k % 7],
+    }
+}
+
+fn fam_vector(f: Fam, len: usize) -> Vec<C> {
+    match f.unit_pos(len) {
+        Some(pos) => {
+            let mut v = vec![(0.0, 0.0); len];
+            if len > 0 {
+                v[pos] = Z0;
+            }
+            v
+        }
+        None => (0..len).map(|j| fam_slot(f, j)).collect(),
+    }
+}
+
+fn fam_list(f: Fam, len: usize) -> Vec<f64> {
+    match f.unit_pos(len) {
+        Some(pos) => {
+            let mut v = vec![0.0; len];
+            if len > 0 {
+                v[pos] = W0;
+            }
+            v
+        }
+        None => (0..len).map(|k| fam_coeff(f, k)).collect(),
+    }
+}
+
+/// the naive inverse embedding of `refmodel::embed`, one slot at a time, with the 2N values of `unit` tabulated
+struct EmbRef {
+    n: usize,
+    g: Vec<usize>,
+    tab: Vec<(f64, f64)>,
+}
+
+impl EmbRef {
+    fn new(n: usize) -> EmbRef {
+        EmbRef { n, g: slot_exponents(n), tab: (0..2 * n).map(|t| unit(n, t)).collect() }
+    }
+    /// acc[k] += Re(z * zeta^(-g_j k))
+    fn add_slot(&self, acc: &mut [f64], j: usize, z: C) {
+        let m = 2 * self.n;
+        let gj = self.g[j];
+        let mut t = 0usize; // (g_j * k) mod 2N
+        for a in acc.iter_mut() {
+            let (c, s) = self.tab[t];
+            *a += z.0 * c + z.1 * s;
+            t += gj;
+            if t >= m {
+                t -= m;
+            }
+        }
+    }
+    /// scale * (2/N) * acc, in the operation order of `inv_embed` followed by the scaling
+    fn finish(&self, acc: &[f64], scale: f64) -> Vec<f64> {
+        acc.iter().map(|&s| (s * 2.0 / (self.n as f64)) * scale).collect()
+    }
+    /// slot j of the polynomial c * X^pos
+    fn monomial_slot(&self, j: usize, pos: usize, c: f64) -> C {
+        let (co, si) = self.tab[(self.g[j] * pos) % (2 * self.n)];
+        (c * co, c * si)
+    }
+}
+
+/// one centred integer vector, in native integers when everything fits
+#[derive(Clone)]
+enum Ints {
+    Small(Vec<i128>),
+    Big(Vec<BigI>),
+}
+
+impl Ints {
+    fn len(&self) -> usize {
+        match self {
+            Ints::Small(v) => v.len(),
+            Ints::Big(v) => v.len(),
+        }
+    }
+    fn max_mag(&self) -> BigU {
+        match self {
+            Ints::Small(v) => BigU::from_u128(v.iter().map(|x| x.unsigned_abs()).max().unwrap_or(0)),
+            Ints::Big(v) => v.iter().map(|x| x.mag.clone()).max().unwrap_or_else(BigU::zero),
+        }
+    }
+    fn to_f64(&self, k: usize) -> f64 {
+        match self {
+            Ints::Small(v) => v[k] as f64,
+            Ints::Big(v) => v[k].to_f64(),
+        }
+    }
+    fn is_neg(&self, k: usize) -> bool {
+        match self {
+            Ints::Small(v) => v[k] < 0,
+            Ints::Big(v) => v[k].neg,
+        }
+    }
+    fn any_nonzero(&self) -> bool {
+        match self {
+            Ints::Small(v) => v.iter().any(|&x| x != 0),
+            Ints::Big(v) => v.iter().any(|x| !x.mag.is_zero()),
+        }
+    }
+    fn fmt(&self, k: usize) -> String {
+        match self {
+            Ints::Small(v) => fmt_big(&BigI::from_i128(v[k])),
+            Ints::Big(v) => fmt_big(&v[k]),
+        }
+    }
+    /// residue of entry k in [0, m)
+    fn residue(&self, k: usize, m: u64) -> u64 {
+        match self {
+            Ints::Small(v) => {
+                let x = v[k];
+                if x == 0 {
+                    0
+                } else if x.unsigned_abs() < (1u128 << 63) && m < (1u64 << 63) {
+                    (x as i64).rem_euclid(m as i64) as u64
+                } else {
+                    x.rem_euclid(m as i128) as u64
+                }
+            }
+            Ints::Big(v) => v[k].rem_u64(m),
+        }
+    }
+    /// entry k minus the real number r, as a double (the integer part of the difference is formed exactly)
+    fn diff(&self, k: usize, r: f64) -> f64 {
+        let frac = if r.abs() < 4.5e15 { r.round() - r } else { 0.0 };
+        match self {
+            Ints::Small(v) if r.abs() < 2f64.powi(120) => (v[k] - r.round() as i128) as f64 + frac,
+            Ints::Small(v) => BigI::from_i128(v[k]).sub(&big_round_f64(r)).to_f64() + frac,
+            Ints::Big(v) => v[k].sub(&big_round_f64(r)).to_f64() + frac,
+        }
+    }
+    /// exact integer vector from (value, scale) products; None when a product is not finite / not exactly representable
+    fn from_products(vals: &[f64], scale: f64) -> Option<Ints> {
+        let mut big = Vec::with_capacity(vals.len());
+        let mut small = true;
+        for &v in vals {
+            if v == 0.0 {
+                big.push(BigI::new(false, BigU::zero()));
+                continue;
+            }
+            let p = v * scale;
+            if !v.is_finite() || !p.is_finite() {
+                return None;
+            }
+            let (b, exact) = big_round_product(v, scale);
+            if !exact {
+                return None;
+            }
+            if b.mag.bits() > 120 {
+                small = false;
+            }
+            big.push(b);
+        }
+        Some(if small {
+            Ints::Small(big.iter().map(|b| if b.neg { -(b.mag.to_u128().unwrap() as i128) } else { b.mag.to_u128().unwrap() as i128 }).collect())
+        } else {
+            Ints::Big(big)
+        })
+    }
+}
+
+/// CRT composition + centring for one level, precomputed
+struct Composer {
+    moduli: Vec<u64>,
+    q: BigU,
+    /// the modulus when it has at most 120 bits
+    small_q: Option<u128>,
+    /// Garner: (q_0 ... q_(j-1))^-1 mod q_j
+    garner_inv: Vec<u64>,
+    /// (q/q_j, (q/q_j)^-1 mod q_j)
+    terms: Vec<(BigU, u64)>,
+}
+
+impl Composer {
+    fn new(moduli: &[u64]) -> Result<Composer, String> {
+        let q = BigU::product(moduli);
+        let small_q = if q.bits() <= 120 { q.to_u128() } else { None };
+        let mut garner_inv = vec![0u64; moduli.len()];
+        let mut terms = vec![];
+        if small_q.is_some() {
+            let mut p: u128 = 1;
+            for (j, &m) in moduli.iter().enumerate() {
+                if j > 0 {
+                    garner_inv[j] = inv_mod_u64((p % m as u128) as u64, m).ok_or("moduli not coprime")?;
+                }
+                p *= m as u128;
+            }
+        } else {
+            for (j, &m) in moduli.iter().enumerate() {
+                let others: Vec<u64> = moduli.iter().enumerate().filter(|(i, _)| *i != j).map(|(_, &x)| x).collect();
+                let mj = BigU::product(&others);
+                let inv = inv_mod_u64(mj.rem_u64(m), m).ok_or("moduli not coprime")?;
+                terms.push((mj, inv));
+            }
+        }
+        Ok(Composer { moduli: moduli.to_vec(), q, small_q, garner_inv, terms })
+    }
+
+    /// res[j][i] = residue of coefficient i modulo prime j
+    fn compose(&self, res: &[Vec<u64>], n: usize) -> Result<Ints, String> {
+        let k = self.moduli.len();
+        let out = match self.small_q {
+            Some(q) => {
+                let mut v = Vec::with_capacity(n);
+                for i in 0..n {
+                    let mut x: u128 = res[0][i] as u128;
+                    let mut p: u128 = self.moduli[0] as u128;
+                    for j in 1..k {
+                        let m = self.moduli[j];
+                        let xm = (x % m as u128) as u64;
+                        let diff = sub_mod(res[j][i] % m, xm, m);
+                        let t = mul_mod(diff, self.garner_inv[j], m);
+                        x += p * t as u128;
+                        p *= m as u128;
+                    }
+                    v.push(if 2 * x >= q { -((q - x) as i128) } else { x as i128 });
+                }
+                Ints::Small(v)
+            }
+            None => {
+                let mut v = Vec::with_capacity(n);
+                for i in 0..n {
+                    let mut x = BigU::zero();
+                    for j in 0..k {
+                        let (mj, inv) = &self.terms[j];
+                        let c = mul_mod(res[j][i] % self.moduli[j], *inv, self.moduli[j]);
+                        if c != 0 {
+                            x = x.add(&mj.mul_u64(c));
+                        }
+                    }
+                    while x >= self.q {
+                        x = x.sub(&self.q);
+                    }
+                    v.push(if x.shl(1) >= self.q { BigI::new(true, self.q.sub(&x)) } else { BigI::new(false, x) });
+                }
+                Ints::Big(v)
+            }
+        };
+        // a few coefficients again with the boring composition
+        let mut probe = vec![0usize, 1 % n, n / 2, n - 1];
+        probe.dedup();
+        for i in probe {
+            let r: Vec<u64> = (0..k).map(|j| res[j][i]).collect();
+            let want = centered(&crt(&r, &self.moduli), &self.q);
+            let got = match &out {
+                Ints::Small(v) => BigI::from_i128(v[i]),
+                Ints::Big(v) => v[i].clone(),
+            };
+            if got != want {
+                return Err(format!("coefficient {i}: fast composition {} vs refmodel crt {}", fmt_big(&got), fmt_big(&want)));
+            }
+        }
+        Ok(out)
+    }
+}
+
+/// the helpers of these sections against the boring reference (once per process)
+fn big_selftest() -> Result<(), String> {
+    static ONCE: OnceLock<Result<(), String>> = OnceLock::new();
+    ONCE.get_or_init(|| {
+        crate::refmodel::embed::selftest()?;
+        crate::refmodel::ntt::selftest_fast()?;
+        // incremental / closed-form embedding == naive embedding, bit for bit, N <= 64, every length, every family
+        for logn in 1..=6 {
+            let n = 1usize << logn;
+            let er = EmbRef::new(n);
+            for f in Fam::all() {
+                let mut acc = vec![0.0; n];
+                let mut have = 0;
+                for len in 0..=n / 2 {
+                    let vals = fam_vector(f, len);
+                    let got = match f.unit_pos(len) {
+                        Some(pos) if len > 0 => {
+                            let mut a = vec![0.0; n];
+                            er.add_slot(&mut a, pos, Z0);
+                            er.finish(&a, 8.0)
+                        }
+                        Some(_) => vec![0.0; n],
+                        None => {
+                            while have < len {
+                                er.add_slot(&mut acc, have, fam_slot(f, have));
+                                have += 1;
+                            }
+                            er.finish(&acc, 8.0)
+                        }
+                    };
+                    let want: Vec<f64> = inv_embed(&vals, n).iter().map(|&x| x * 8.0).collect();
+                    for k in 0..n {
+                        // same terms in the same order: equal (a unit vector handed to inv_embed adds explicit zero terms, which
+                        // can only change the sign of a zero)
+                        if got[k] != want[k] {
+                            return Err(format!("EmbRef N={n} family {} length {len} coefficient {k}: {:e} vs inv_embed {:e}", f.name(), got[k], want[k]));
+                        }
+                    }
+                    // monomial slots against the naive forward embedding
+                    if len > 0 && f == Fam::UnitLast {
+                        let mut co = vec![0.0; n];
+                        co[len - 1] = W0;
+                        let fw = fwd_embed(&co, n);
+                        for j in 0..n / 2 {
+                            let s = er.monomial_slot(j, len - 1, W0);
+                            if (s.0 - fw[j].0).abs() > 1e-13 || (s.1 - fw[j].1).abs() > 1e-13 {
+                                return Err(format!("monomial slot N={n} X^{} slot {j}", len - 1));
+                            }
+                        }
+                    }
+                }
+            }
+        }
+        // composition: small and big path against crt/centered on every residue pair of tiny moduli and on wide ones
+        for moduli in [vec![5u64, 7], vec![3, 5, 7], vec![1073479681, 1073184769, 1072496641], vec![1152921504606830593, 1152921504606748673, 1152921504606683137]] {
+            let c = Composer::new(&moduli)?;
+            let cnt = if moduli[0] < 100 { moduli.iter().product::<u64>() as usize } else { 64 };
+            let res: Vec<Vec<u64>> = moduli.iter().enumerate().map(|(j, &m)| (0..cnt as u64).map(|i| if m < 100 { i % m } else { ((i + 1).wrapping_mul(i + 3).wrapping_mul(0x9E37_79B9_7F4A_7C15u64.wrapping_add(j as u64)) ^ (i << 7)).wrapping_mul(0xD129_0F3A_5B1C_2E47) % m }).collect()).collect();
+            let got = c.compose(&res, cnt)?;
+            for i in 0..cnt {
+                let r: Vec<u64> = (0..moduli.len()).map(|j| res[j][i]).collect();
+                let want = centered(&crt(&r, &moduli), &c.q);
+                let g = match &got {
+                    Ints::Small(v) => BigI::from_i128(v[i]),
+                    Ints::Big(v) => v[i].clone(),
+                };
+                if g != want {
+                    return Err(format!("Composer {:?} entry {i}", moduli));
+                }
+                for (j, &m) in moduli.iter().enumerate() {
+                    if got.residue(i, m) != r[j] {
+                        return Err(format!("Ints::residue {:?} entry {i} prime {j}", moduli));
+                    }
+                }
+            }
+        }
+        Ok(())
+    })
+    .clone()
+}
+
+/// one opened level of a parameter set
+struct Lvl {
+    id: heathcliff::ParmsID,
+    n: usize,
+    moduli: Vec<u64>,
+    roots: Vec<u64>,
+    b: usize,
+    words: usize,
+    is_first: bool,
+    data_level: bool,
+    comp: Composer,
+}
+
+fn open_level(section: &str, spec: &ParamSpec, level_primes: usize) -> Result<(Kit12, Lvl), CaseOut> {
+    let ctx = match guard(|| spec.context()) {
+        Ok(x) => x,
+        Err(p) => return Err(CaseOut::skip(&format!("context construction panicked: {}", panic_class(&p)))),
+    };
+    if !ctx.parameters_set() {
+        return Err(CaseOut::skip("parameter set rejected by the library"));
+    }
+    let Some(cd) = level(&ctx, level_primes) else { return Err(CaseOut::skip("no such level")) };
+    let kit = Kit12 { enc: CKKSEncoder::new(ctx.clone()), ctx: ctx.clone() };
+    let id = *cd.parms_id();
+    let moduli: Vec<u64> = cd.parms().coeff_modulus().iter().map(|m| m.value()).collect();
+    if moduli[..] != spec.q[..level_primes] {
+        return Err(CaseOut::fail(format!("{section}:chain:level-moduli"), format!("{:?}", &spec.q[..level_primes]), format!("{:?}", moduli)));
+    }
+    let q = BigU::product(&moduli);
+    let b = q.bits();
+    if cd.total_coeff_modulus_bit_count() != b {
+        return Err(CaseOut::fail(format!("{section}:chain:bit-count"), format!("{b}"), format!("{}", cd.total_coeff_modulus_bit_count())));
+    }
+    let roots: Vec<u64> = cd.small_ntt_tables().iter().map(|t| t.root()).collect();
+    let n = spec.n;
+    for (j, (&r, &m)) in roots.iter().zip(&moduli).enumerate() {
+        if !(pow_mod(r, n as u64, m) == m - 1) {
+            return Err(CaseOut::fail(format!("{section}:chain:ntt-root"), format!("a primitive 2N-th root of unity modulo prime {j} = {m}"), format!("{r}")));
+        }
+    }
+    let comp = match Composer::new(&moduli) {
+        Ok(c) => c,
+        Err(e) => return Err(CaseOut::skip(&format!("composition not possible: {e}"))),
+    };
+    let is_first = id == *ctx.first_parms_id();
+    let data_level = cd.chain_index() <= ctx.first_context_data().unwrap().chain_index();
+    Ok((kit, Lvl { id, n, moduli, roots, words: (b + 63) / 64, b, is_first, data_level, comp }))
+}
+
+/// what one accepted encoding has to be
+struct Want<'a> {
+    /// approximate entry points: scale * preimage, per coefficient, and the allowance; exact ones: the integer vector
+    real: Option<(&'a [f64], f64)>,
+    ints: Option<&'a Ints>,
+    /// |v|_inf of the input
+    vmax: f64,
+    /// the input as slot values (what `decode` has to give back); None for coefficient lists
+    slots_in: Option<&'a dyn Fn(usize) -> C>,
+    /// coefficient list: a monomial (position) whose slot values have a closed form
+    monomial: Option<usize>,
+}
+
+struct Judged {
+    steps: u64,
+    nonzero: bool,
+    class: String,
+}
+
+/// true when max|r| is (with the transform fuzz) below 2^(B-3): the input must be accepted
+fn must_accept_real(maxr: f64, b: usize) -> bool {
+    if !maxr.is_finite() {
+        return false;
+    }
+    let m = big_round_f64(maxr * (1.0 + 2f64.powi(-30)) + 4.0);
+    m.mag.bits() + 3 <= b
+}
+
+#[allow(clippy::too_many_arguments)]
+fn judge(section: &str, kit: &Kit12, lv: &Lvl, entry: Entry, inp: &Input, scale: f64, want: &Want, er: &EmbRef, dirty: &Plaintext, check_default: bool, ctxt: &dyn Fn() -> String) -> Result<Judged, CaseOut> {
+    let n = lv.n;
+    let k = lv.moduli.len();
+    let ename = entry.name();
+    let mut steps = 1u64;
+    let pt = match call_encode(kit, inp, lv.id, scale, None) {
+        Ok(p) => p,
+        Err(p) => {
+            let key = if is_invalid_argument(&p) { format!("{section}:{ename}:valid-input-refused:{}", panic_class(&p)) } else { format!("{section}:{ename}:crash:{}", panic_class(&p)) };
+            return Err(CaseOut::fail(key, format!("accepted: the scaled magnitude is below 2^{} ({})", lv.b - 3, ctxt()), p));
+        }
+    };
+    // ---- metadata, shape
+    let meta_ok = pt.parms_id() == &lv.id && pt.is_ntt_form() && pt.scale().to_bits() == scale.to_bits() && pt.coeff_count() == n * k;
+    if !meta_ok {
+        return Err(CaseOut::fail(
+            format!("{section}:{ename}:metadata"),
+            format!("parms_id of the level, NTT form, scale {:e}, coeff_count {} ({})", scale, n * k, ctxt()),
+            format!("parms_id ok={} ntt={} scale={:e} coeff_count={}", pt.parms_id() == &lv.id, pt.is_ntt_form(), pt.scale(), pt.coeff_count()),
+        ));
+    }
+    if pt.data().len() != n * k {
+        return Err(CaseOut::fail(format!("{section}:{ename}:shape"), format!("{} words ({})", n * k, ctxt()), format!("{}", pt.data().len())));
+    }
+    for j in 0..k {
+        if let Some(x) = pt.data()[j * n..(j + 1) * n].iter().find(|&&x| x >= lv.moduli[j]) {
+            return Err(CaseOut::fail(format!("{section}:{ename}:residue-range"), format!("component {j} below {} ({})", lv.moduli[j], ctxt()), format!("{x}")));
+        }
+    }
+    // ---- the integer vector
+    let got: Ints = if let Some(ints) = want.ints {
+        let mm = ints.max_mag();
+        for j in 0..k {
+            let m = lv.moduli[j];
+            let e: Vec<u64> = (0..n).map(|i| if i < ints.len() { ints.residue(i, m) } else { 0 }).collect();
+            let f = fast_ntt(&e, lv.roots[j], m);
+            if f[..] != pt.data()[j * n..(j + 1) * n] {
+                let d = fast_intt(&pt.data()[j * n..(j + 1) * n], lv.roots[j], m);
+                let i = (0..n).find(|&i| d[i] != e[i]).unwrap_or(0);
+                let cen = |x: u64| if x > m / 2 { format!("-{}", m - x) } else { format!("{x}") };
+                return Err(CaseOut::fail(
+                    format!("{section}:{ename}:wrong-coefficient:{}", mag_class(&mm)),
+                    format!("coefficient {i} = {} = round(value*scale) exactly, i.e. {} ({}) modulo prime {j} = {m} ({})", if i < ints.len() { ints.fmt(i) } else { "0".into() }, e[i], cen(e[i]), ctxt()),
+                    format!("component {j} holds {} ({}) at coefficient {i}; {} of {n} coefficients of this component differ", d[i], cen(d[i]), (0..n).filter(|&i| d[i] != e[i]).count()),
+                ));
+            }
+        }
+        let mut v = ints.clone();
+        match &mut v {
+            Ints::Small(x) => x.resize(n, 0),
+            Ints::Big(x) => x.resize(n, BigI::new(false, BigU::zero())),
+        }
+        v
+    } else {
+        let res: Vec<Vec<u64>> = (0..k).map(|j| fast_intt(&pt.data()[j * n..(j + 1) * n], lv.roots[j], lv.moduli[j])).collect();
+        let got = match lv.comp.compose(&res, n) {
+            Ok(g) => g,
+            Err(e) => return Err(CaseOut::fail(format!("{section}:reference-composition"), "fast composition = refmodel crt", e)),
+        };
+        let (real, tol) = want.real.unwrap();
+        let maxr = real.iter().fold(0.0f64, |a, r| a.max(r.abs()));
+        for i in 0..n {
+            let err = got.diff(i, real[i]);
+            if !(err.abs() <= tol) {
+                let bad = (0..n).filter(|&i| !(got.diff(i, real[i]).abs() <= tol)).count();
+                return Err(CaseOut::fail(
+                    format!("{section}:{ename}:wrong-coefficient:{}", mag_class(&big_round_f64(maxr).mag)),
+                    format!("coefficient {i} = round(scale*preimage) = round({:e}) within {:e} ({})", real[i], tol, ctxt()),
+                    format!("coefficient {i} = {} (difference {:e}); {bad} of {n} coefficients are off", got.fmt(i), err),
+                ));
+            }
+        }
+        got
+    };
+    let maxmag = got.max_mag();
+    let nonzero = got.any_nonzero();
+    // ---- the in-place form on a used destination, the default level
+    match call_encode(kit, inp, lv.id, scale, Some(dirty)) {
+        Ok(p2) => {
+            steps += 1;
+            if p2.data() != pt.data() || p2.parms_id() != pt.parms_id() || p2.scale().to_bits() != pt.scale().to_bits() || p2.coeff_count() != pt.coeff_count() {
+                let at = (0..pt.data().len().min(p2.data().len())).find(|&i| pt.data()[i] != p2.data()[i]);
+                return Err(CaseOut::fail(
+                    format!("{section}:{ename}:forms-differ"),
+                    format!("in-place form on a used destination = _new form ({})", ctxt()),
+                    format!("first differing word {:?}; coeff_count {} vs {}; len {} vs {}", at, pt.coeff_count(), p2.coeff_count(), pt.data().len(), p2.data().len()),
+                ));
+            }
+        }
+        Err(p) => return Err(CaseOut::fail(format!("{section}:{ename}:forms-differ:{}", panic_class(&p)), format!("in-place form accepts like _new ({})", ctxt()), p)),
+    }
+    if lv.is_first && check_default {
+        match call_encode_default_level(kit, inp, scale) {
+            Ok(p3) if p3.data() == pt.data() && p3.parms_id() == pt.parms_id() => steps += 1,
+            Ok(_) => return Err(CaseOut::fail(format!("{section}:{ename}:default-level"), format!("parms_id None = first level ({})", ctxt()), "different plaintext")),
+            Err(p) => return Err(CaseOut::fail(format!("{section}:{ename}:default-level:{}", panic_class(&p)), format!("parms_id None = first level ({})", ctxt()), p)),
+        }
+    }
+    let class = format!("accepted:{}:k={}", mag_class(&maxmag), k.min(3));
+    // ---- decoding (data levels, magnitudes below 2^1000)
+    if !lv.data_level || maxmag.bits() > 1000 {
+        return Ok(Judged { steps, nonzero, class });
+    }
+    if !pt.is_valid_for(&kit.ctx) {
+        return Err(CaseOut::fail(format!("{section}:{ename}:not-valid-for-context"), format!("is_valid_for ({})", ctxt()), "false"));
+    }
+    let cf: Vec<f64> = (0..n).map(|i| got.to_f64(i) / scale).collect();
+    let mx = cf.iter().fold(0.0f64, |a, x| a.max(x.abs()));
+    let nn = n as f64;
+    let logn = (n.trailing_zeros() as f64).max(1.0);
+    let u = 2f64.powi(-52);
+    let wtol = lv.words as f64 + 4.0;
+    match guard(|| kit.enc.decode_polynomial_new(&pt)) {
+        Err(p) => return Err(CaseOut::fail(format!("{section}:{ename}:decode-polynomial:{}", panic_class(&p)), format!("decodes ({})", ctxt()), p)),
+        Ok(dp) => {
+            steps += 1;
+            if dp.len() != n {
+                return Err(CaseOut::fail(format!("{section}:{ename}:decode-polynomial-wrong"), format!("{n} coefficients ({})", ctxt()), format!("{}", dp.len())));
+            }
+            for i in 0..n {
+                let tol = wtol * u * cf[i].abs();
+                if !((dp[i] - cf[i]).abs() <= tol) {
+                    let small = got.is_neg(i) && (dp[i] - cf[i]).abs() <= cf[i].abs() * 2f64.powi(-40);
+                    return Err(CaseOut::fail(
+                        format!("{section}:{ename}:decode-polynomial-wrong{}", if small { ":negative-cancellation" } else { "" }),
+                        format!("coefficient {i} / scale = {:e} within {:e} (integer coefficient {}) ({})", cf[i], tol, got.fmt(i), ctxt()),
+                        format!("{:e}", dp[i]),
+                    ));
+                }
+            }
+        }
+    }
+    if want.slots_in.is_none() && want.monomial.is_none() {
+        return Ok(Judged { steps, nonzero, class });
+    }
+    match guard(|| kit.enc.decode_new(&pt)) {
+        Err(p) => return Err(CaseOut::fail(format!("{section}:{ename}:decode:{}", panic_class(&p)), format!("decodes ({})", ctxt()), p)),
+        Ok(dec) => {
+            steps += 1;
+            if dec.len() != n / 2 {
+                return Err(CaseOut::fail(format!("{section}:{ename}:decode-wrong"), format!("{} slots ({})", n / 2, ctxt()), format!("{}", dec.len())));
+            }
+            let tol_a = (nn * logn + wtol) * u * nn * mx;
+            if let Some(pos) = want.monomial {
+                for j in 0..n / 2 {
+                    let s = er.monomial_slot(j, pos, cf[pos]);
+                    let e = (dec[j].re - s.0).abs().max((dec[j].im - s.1).abs());
+                    if !(e <= tol_a) {
+                        return Err(CaseOut::fail(
+                            format!("{section}:{ename}:decode-wrong"),
+                            format!("slot {j} = embedding of the plaintext's integer vector ({} * X^{pos} / scale) = ({:e},{:e}) within {:e} ({})", got.fmt(pos), s.0, s.1, tol_a, ctxt()),
+                            format!("({:e},{:e})", dec[j].re, dec[j].im),
+                        ));
+                    }
+                }
+            }
+            if let Some(sl) = want.slots_in {
+                let tolc = match want.real {
+                    Some((_, t)) => t,
+                    None => 0.5,
+                };
+                let tol_b = nn * tolc / scale + tol_a + (nn * logn + 4.0) * u * nn * want.vmax;
+                for j in 0..n / 2 {
+                    let s = sl(j);
+                    let e = (dec[j].re - s.0).abs().max((dec[j].im - s.1).abs());
+                    if !(e <= tol_b) {
+                        let bad = (0..n / 2).filter(|&j| !((dec[j].re - sl(j).0).abs().max((dec[j].im - sl(j).1).abs()) <= tol_b)).count();
+                        return Err(CaseOut::fail(
+                            format!("{section}:{ename}:decode-input"),
+                            format!("slot {j} = input ({:e},{:e}) within {:e} ({})", s.0, s.1, tol_b, ctxt()),
+                            format!("({:e},{:e}); {bad} of {} slots are off", dec[j].re, dec[j].im, n / 2),
+                        ));
+                    }
+                }
+            }
+        }
+    }
+    Ok(Judged { steps, nonzero, class })
+}
+
+fn dirty_plain(words: usize, seed: u64) -> Plaintext {
+    let mut p = Plaintext::new();
+    p.resize(words + 3);
+    for (i, x) in p.data_mut().iter_mut().enumerate() {
+        *x = 0x9E37_79B9_7F4A_7C15u64.wrapping_mul(i as u64 + seed) | 1;
+    }
+    p.set_scale(12345.0);
+    p
+}
+
+// ---------------------------------------------------------------------------------------------
+// sections `big_vector`, `big_coefflist`: every input length, structured families
+// ---------------------------------------------------------------------------------------------
+
+#[derive(Serialize, Deserialize, Clone, Debug)]
+pub struct BigCase {
+    pub spec: ParamSpec,
+    /// number of primes of the level encoded at
+    pub level_primes: usize,
+    /// C64Array or F64Poly
+    pub entry: Entry,
+    /// scale = 2^scale_exp
+    pub scale_exp: i32,
+    pub fam: Fam,
+    /// the input lengths of this case, ascending (a length above the capacity has to be refused)
+    pub lens: Vec<usize>,
+}
+
+fn check_big(section: &str, c: &BigCase, seed: u64) -> CaseOut {
+    let tag = h64(&serde_json::to_string(c).unwrap_or_default());
+    env_real(seed, tag);
+    if let Err(e) = big_selftest() {
+        return CaseOut::fail(format!("{section}:reference-selftest"), "reference self-test passes", e);
+    }
+    let (kit, lv) = match open_level(section, &c.spec, c.level_primes) {
+        Ok(x) => x,
+        Err(o) => return o,
+    };
+    let n = lv.n;
+    let scale = 2f64.powi(c.scale_exp);
+    let ename = c.entry.name();
+    let er = EmbRef::new(n);
+    let dirty = dirty_plain(n * lv.moduli.len(), seed);
+    let capacity = match c.entry {
+        Entry::C64Array => n / 2,
+        Entry::F64Poly => n,
+        _ => return CaseOut::skip("entry point without an input length"),
+    };
+    let logn = (n.trailing_zeros() as f64).max(1.0);
+    let mut steps = 0u64;
+    let mut nontrivial = false;
+    let mut classes: BTreeSet<String> = BTreeSet::new();
+    let mut judged = 0usize;
+    // prefix families: the terms accumulated so far
+    let mut acc = vec![0.0f64; n];
+    let mut have = 0usize;
+    let mut vmax_prefix = 0.0f64;
+    for (idx, &len) in c.lens.iter().enumerate() {
+        let inp = match c.entry {
+            Entry::C64Array => Input::Arr(fam_vector(c.fam, len)),
+            _ => Input::Poly(fam_list(c.fam, len)),
+        };
+        let ctxt = || format!("{} level_primes={} scale=2^{} family {} length {len}", c.spec.label(), c.level_primes, c.scale_exp, c.fam.name());
+        if len > capacity {
+            steps += 1;
+            match call_encode(&kit, &inp, lv.id, scale, None) {
+                Ok(_) => return CaseOut::fail(format!("{section}:{ename}:too-long-accepted"), format!("refused: {len} values for N={n}"), "accepted"),
+                Err(p) => {
+                    classes.insert(format!("too-long:{}", panic_class(&p)));
+                }
+            }
+            continue;
+        }
+        if len == 0 && c.entry == Entry::F64Poly {
+            continue; // the empty list is observed by the sections above, not judged
+        }
+        let r = match (&inp, c.fam.unit_pos(len)) {
+            (Input::Arr(vals), pos) => {
+                let (real, vmax) = match pos {
+                    Some(p) if len > 0 => {
+                        let mut a = vec![0.0; n];
+                        er.add_slot(&mut a, p, Z0);
+                        (er.finish(&a, scale), Z0.0.hypot(Z0.1))
+                    }
+                    Some(_) => (vec![0.0; n], 0.0),
+                    None => {
+                        while have < len {
+                            let z = fam_slot(c.fam, have);
+                            er.add_slot(&mut acc, have, z);
+                            vmax_prefix = vmax_prefix.max(z.0.hypot(z.1));
+                            have += 1;
+                        }
+                        (er.finish(&acc, scale), if len == 0 { 0.0 } else { vmax_prefix })
+                    }
+                };
+                let maxr = real.iter().fold(0.0f64, |a, r| a.max(r.abs()));
+                if !must_accept_real(maxr.max(vmax * scale), lv.b) {
+                    classes.insert("not-enumerated:does-not-fit".into());
+                    continue;
+                }
+                let tol = 0.5 + (n as f64) * logn * 2f64.powi(-52) * scale * vmax;
+                let sl = |j: usize| if j < vals.len() { vals[j] } else { (0.0, 0.0) };
+                let want = Want { real: Some((&real, tol)), ints: None, vmax, slots_in: Some(&sl), monomial: None };
+                judge(section, &kit, &lv, c.entry, &inp, scale, &want, &er, &dirty, idx == 0, &ctxt)
+            }
+            (Input::Poly(vals), pos) => {
+                let Some(ints) = Ints::from_products(vals, scale) else {
+                    classes.insert("not-enumerated:inexact-product".into());
+                    continue;
+                };
+                if ints.max_mag().bits() + 3 > lv.b {
+                    classes.insert("not-enumerated:does-not-fit".into());
+                    continue;
+                }
+                let vmax = vals.iter().fold(0.0f64, |a, v| a.max(v.abs()));
+                let want = Want { real: None, ints: Some(&ints), vmax, slots_in: None, monomial: pos };
+                judge(section, &kit, &lv, c.entry, &inp, scale, &want, &er, &dirty, idx == 0, &ctxt)
+            }
+            _ => unreachable!(),
+        };
+        match r {
+            Ok(j) => {
+                steps += j.steps;
+                nontrivial |= j.nonzero;
+                classes.insert(j.class);
+                judged += 1;
+            }
+            Err(o) => return o,
+        }
+    }
+    if judged == 0 && classes.iter().all(|c| c.starts_with("not-enumerated")) {
+        return CaseOut::skip("no input of this case fits the level at this scale");
+    }
+    CaseOut::pass(nontrivial, h64(&(ename, c.fam.name(), classes.iter().cloned().collect::<Vec<_>>())), steps)
+}
+
+// ---------------------------------------------------------------------------------------------
+// section `big_primes`: 1..20 primes at the level x five entry points x width paths
+// ---------------------------------------------------------------------------------------------
+
+#[derive(Serialize, Deserialize, Clone, Debug)]
+pub struct PrimesCase {
+    pub spec: ParamSpec,
+    pub level_primes: usize,
+    pub entry: Entry,
+}
+
+/// scale exponents for a level of B bits: the 64-bit path, the 128-bit path, the multi-word path with 3 words and with
+/// every word the level has (capped at 2^990)
+fn path_exps(b: usize) -> Vec<i32> {
+    let top = (b as i32 - 6).min(990);
+    let mut v: Vec<i32> = [20, 100, 150, top].into_iter().filter(|&e| e <= top && e >= 0).collect();
+    if v.is_empty() {
+        v.push(top.max(0));
+    }
+    v.sort();
+    v.dedup();
+    v
+}
+
+fn check_primes(section: &str, c: &PrimesCase, seed: u64) -> CaseOut {
+    let tag = h64(&serde_json::to_string(c).unwrap_or_default());
+    env_real(seed, tag);
+    if let Err(e) = big_selftest() {
+        return CaseOut::fail(format!("{section}:reference-selftest"), "reference self-test passes", e);
+    }
+    let (kit, lv) = match open_level(section, &c.spec, c.level_primes) {
+        Ok(x) => x,
+        Err(o) => return o,
+    };
+    let n = lv.n;
+    let slots = n / 2;
+    let er = EmbRef::new(n);
+    let dirty = dirty_plain(n * lv.moduli.len(), seed);
+    let logn = (n.trailing_zeros() as f64).max(1.0);
+    let mut steps = 0u64;
+    let mut nontrivial = false;
+    let mut classes: BTreeSet<String> = BTreeSet::new();
+    let mut judged = 0usize;
+    let exps: Vec<i32> = if c.entry == Entry::I64Single { vec![0] } else { path_exps(lv.b) };
+    // the inputs of the entry point
+    let mut inputs: Vec<(String, Input)> = vec![];
+    match c.entry {
+        Entry::C64Array => {
+            let mut shapes: Vec<(Fam, usize)> = vec![(Fam::UnitFirst, 1), (Fam::UnitLast, slots), (Fam::Const, slots), (Fam::Alt, slots.saturating_sub(1).max(1)), (Fam::Cycle, slots), (Fam::Ramp, slots.min(65))];
+            if slots > 65 {
+                shapes.push((Fam::Cycle, 65));
+            }
+            for (f, len) in shapes {
+                inputs.push((format!("family {} length {len}", f.name()), Input::Arr(fam_vector(f, len))));
+            }
+        }
+        Entry::F64Poly => {
+            let mut shapes: Vec<(Fam, usize)> = vec![(Fam::UnitFirst, 1), (Fam::UnitLast, n), (Fam::Const, n), (Fam::Alt, n - 1), (Fam::Cycle, n), (Fam::Ramp, n.min(65))];
+            if n > 65 {
+                shapes.push((Fam::Cycle, 65));
+            }
+            for (f, len) in shapes {
+                inputs.push((format!("family {} length {len}", f.name()), Input::Poly(fam_list(f, len))));
+            }
+        }
+        Entry::F64Single => {
+            for v in [1.0, -1.5, 0.3, -1.9999999999999998, 2.5, -0.5] {
+                inputs.push((format!("value {v:e}"), Input::F(v)));
+            }
+        }
+        Entry::C64Single => {
+            for z in [Z0, (0.0, -1.0), (1.0, 0.0), (0.3, -0.7)] {
+                inputs.push((format!("value ({:e},{:e})", z.0, z.1), Input::Cx(z)));
+            }
+        }
+        Entry::I64Single => {
+            for v in [1i64, -1, 3, 5_000_000, -5_000_000, -((1i64 << 40) + 1), (1i64 << 62) + 12345, -((1i64 << 62) + 12345), i64::MAX, i64::MIN] {
+                inputs.push((format!("value {v}"), Input::I(v)));
+            }
+        }
+    }
+    for &e in &exps {
+        let scale = 2f64.powi(e);
+        for (ii, (what, inp)) in inputs.iter().enumerate() {
+            let ctxt = || format!("{} level_primes={} scale=2^{e} {what}", c.spec.label(), c.level_primes);
+            let first = ii == 0;
+            let r = match inp {
+                Input::Arr(_) | Input::Cx(_) => {
+                    let vals: Vec<C> = match inp {
+                        Input::Arr(v) => v.clone(),
+                        Input::Cx(z) => vec![*z; slots],
+                        _ => unreachable!(),
+                    };
+                    let mut acc = vec![0.0; n];
+                    let mut vmax = 0.0f64;
+                    for (j, &z) in vals.iter().enumerate() {
+                        if z != (0.0, 0.0) {
+                            er.add_slot(&mut acc, j, z);
+                            vmax = vmax.max(z.0.hypot(z.1));
+                        }
+                    }
+                    let real = er.finish(&acc, scale);
+                    let maxr = real.iter().fold(0.0f64, |a, r| a.max(r.abs()));
+                    if !must_accept_real(maxr.max(vmax * scale), lv.b) {
+                        classes.insert("not-enumerated:does-not-fit".into());
+                        continue;
+                    }
+                    let tol = 0.5 + (n as f64) * logn * 2f64.powi(-52) * scale * vmax;
+                    let sl = |j: usize| if j < vals.len() { vals[j] } else { (0.0, 0.0) };
+                    let want = Want { real: Some((&real, tol)), ints: None, vmax, slots_in: Some(&sl), monomial: None };
+                    judge(section, &kit, &lv, c.entry, inp, scale, &want, &er, &dirty, first, &ctxt)
+                }
+                Input::F(_) | Input::I(_) | Input::Poly(_) => {
+                    let (ints, vmax, constant): (Option<Ints>, f64, Option<f64>) = match inp {
+                        Input::F(v) => (Ints::from_products(&[*v], scale), v.abs(), Some(*v)),
+                        Input::I(v) => (Some(Ints::Small(vec![*v as i128])), (*v as f64).abs(), Some(*v as f64)),
+                        Input::Poly(vs) => (Ints::from_products(vs, scale), vs.iter().fold(0.0f64, |a, v| a.max(v.abs())), None),
+                        _ => unreachable!(),
+                    };
+                    let Some(ints) = ints else {
+                        classes.insert("not-enumerated:inexact-product".into());
+                        continue;
+                    };
+                    if ints.max_mag().bits() + 3 > lv.b {
+                        classes.insert("not-enumerated:does-not-fit".into());
+                        continue;
+                    }
+                    let sl = move |_j: usize| (constant.unwrap_or(0.0), 0.0);
+                    // a single value is the constant polynomial: the monomial X^0
+                    let monomial = match inp {
+                        Input::Poly(vs) if vs.iter().filter(|v| **v != 0.0).count() == 1 => vs.iter().position(|v| *v != 0.0),
+                        Input::Poly(_) => None,
+                        _ => Some(0),
+                    };
+                    let want = Want { real: None, ints: Some(&ints), vmax, slots_in: if constant.is_some() { Some(&sl) } else { None }, monomial };
+                    judge(section, &kit, &lv, c.entry, inp, if c.entry == Entry::I64Single { 1.0 } else { scale }, &want, &er, &dirty, first, &ctxt)
+                }
+            };
+            match r {
+                Ok(j) => {
+                    steps += j.steps;
+                    nontrivial |= j.nonzero;
+                    classes.insert(j.class);
+                    judged += 1;
+                }
+                Err(o) => return o,
+            }
+        }
+    }
+    if judged == 0 {
+        return CaseOut::skip("no input of this case fits the level");
+    }
+    CaseOut::pass(nontrivial, h64(&(c.entry.name(), classes.iter().cloned().collect::<Vec<_>>())), steps)
+}
+
 // ---------------------------------------------------------------------------------------------
 // enumeration
 // ---------------------------------------------------------------------------------------------
@@ -1258,8 +2266,130 @@ pub fn sections(cfg: &RunCfg) -> Vec<Box<dyn AnySection>> {
         )
         .deadline(Duration::from_secs(30)),
     );
+    for b in big_sections(cfg) {
+        v.push(b);
+    }
     for m in main_sections {
         v.push(m);
     }
+    v
+}
+
+/// the lengths around the block / table sizes 8 .. 4096 up to `cap`, plus 0 (if wanted), cap - 1, cap and cap + 1 (refused)
+fn boundary_lengths(cap: usize, with_zero: bool) -> Vec<usize> {
+    let mut v: Vec<usize> = vec![1, 2, 3, 5];
+    for p in [8usize, 16, 32, 64, 128, 256, 512, 1024, 2048, 4096, 8192] {
+        v.extend([p - 1, p, p + 1]);
+    }
+    v.extend([96, 100, 191, 192, 193, 1000, 3000]);
+    v.retain(|&x| x <= cap);
+    v.extend([cap - 1, cap, cap + 1]);
+    if with_zero {
+        v.push(0);
+    }
+    v.sort();
+    v.dedup();
+    v
+}
+
+/// `he::chain`, remembered for the process (`sections` is built once per replayed file, and a search for twenty 60-bit
+/// primes is not free)
+fn chain_cached(n: usize, bits: &[usize]) -> Vec<u64> {
+    static CACHE: OnceLock<std::sync::Mutex<std::collections::BTreeMap<(usize, Vec<usize>), Vec<u64>>>> = OnceLock::new();
+    let cache = CACHE.get_or_init(Default::default);
+    if let Some(v) = cache.lock().unwrap().get(&(n, bits.to_vec())) {
+        return v.clone();
+    }
+    let v = if bits.iter().all(|b| *b == bits[0]) { ntt_primes(n, bits[0], bits.len()) } else { chain(n, bits) };
+    cache.lock().unwrap().insert((n, bits.to_vec()), v.clone());
+    v
+}
+
+fn big_sections(cfg: &RunCfg) -> Vec<Box<dyn AnySection>> {
+    let seed = cfg.seed;
+    let thorough = cfg.thorough();
+    let mut v: Vec<Box<dyn AnySection>> = vec![];
+    let degrees: Vec<usize> = if thorough { vec![32, 64, 128, 256, 512, 1024, 2048, 4096, 8192] } else { vec![32, 64, 128, 256, 512, 1024] };
+    let every_fam = [Fam::UnitLast, Fam::UnitFirst, Fam::UnitMid, Fam::Const, Fam::Alt, Fam::Ramp];
+    let chunk = 64usize;
+
+    for (name, entry, exp_all, exps_wide, what) in [
+        (
+            "big_vector",
+            Entry::C64Array,
+            40,
+            [100, 150],
+            "encode_c64_array, decode, decode_polynomial: value (-0.75,0.25) in the last / first / middle slot of the input, constant, alternating, ramp (1+j/2, -(j+1)/4)",
+        ),
+        (
+            "big_coefflist",
+            Entry::F64Poly,
+            0,
+            [70, 140],
+            "encode_f64_polynomial, decode_polynomial (decode for the monomials): value -2.5 in the last / first / middle position of the list, constant, alternating, ramp +-((k+1)*1048577 + {.5,.25,.75,0})",
+        ),
+    ] {
+        let mut cases: Vec<BigCase> = vec![];
+        for &n in &degrees {
+            let cap = if entry == Entry::C64Array { n / 2 } else { n };
+            // (a) every length, 64-bit path, two primes at the level
+            let spec = ParamSpec::new(Scheme::CKKS, n, chain_cached(n, &[50, 40, 60]), 0);
+            for fam in every_fam {
+                let first = if entry == Entry::C64Array && fam == Fam::Const { 0 } else { 1 };
+                let all: Vec<usize> = (first..=cap).collect();
+                let last = (all.len() + chunk - 1) / chunk - 1;
+                for (ci, lens) in all.chunks(chunk).enumerate() {
+                    let mut lens = lens.to_vec();
+                    if ci == last {
+                        lens.push(cap + 1);
+                    }
+                    cases.push(BigCase { spec: spec.clone(), level_primes: 2, entry, scale_exp: exp_all, fam, lens });
+                }
+            }
+            // (b) boundary lengths on the 128-bit and the multi-word path, three primes at the level, every family
+            let spec = ParamSpec::new(Scheme::CKKS, n, chain_cached(n, &[60, 60, 60, 60]), 0);
+            for e in exps_wide {
+                for fam in Fam::all() {
+                    cases.push(BigCase { spec: spec.clone(), level_primes: 3, entry, scale_exp: e, fam, lens: boundary_lengths(cap, entry == Entry::C64Array) });
+                }
+            }
+        }
+        let sec = name.to_string();
+        let bound = format!(
+            "{what}; N in {:?}; (a) EVERY input length {}..capacity+1 (capacity = {}; capacity+1 must be refused), chain 50+40 bit (+60 special), scale 2^{exp_all}, 6 families; (b) lengths {{1,2,3,5, p-1,p,p+1 for p = 8..8192, 96,100,191..193,1000,3000, capacity-1..capacity+1}} on the 128-bit and the multi-word path: chain 3x60 bit (+60 special), scales 2^{} and 2^{}, the 6 families + a 7-cycle of small values; plaintext compared word for word (exact entry point) / coefficient-wise after the reference inverse NTT and CRT (vector), in-place form on a used destination, decode against the input",
+            degrees,
+            if entry == Entry::C64Array { "0 (constant family) / 1" } else { "1" },
+            if entry == Entry::C64Array { "N/2" } else { "N" },
+            exps_wide[0],
+            exps_wide[1]
+        );
+        v.push(E1::new(name, &bound, cases.into_iter(), move |c: &BigCase| check_big(&sec, c, seed)).deadline(Duration::from_secs(240)).batch(1).share(if thorough { 0.3 } else { 1.0 }));
+    }
+
+    // big_primes
+    let mut cases: Vec<PrimesCase> = vec![];
+    let pdeg: Vec<usize> = if thorough { vec![4, 8, 64, 1024, 4096] } else { vec![8, 1024] };
+    let mut pchains: Vec<Vec<usize>> = vec![vec![60; 20], vec![30; 20]];
+    if thorough {
+        pchains.push(vec![50; 20]);
+        pchains.push((0..20).map(|i| 20 + 2 * i + (i % 3)).collect());
+    }
+    for &n in &pdeg {
+        for bits in &pchains {
+            let spec = ParamSpec::new(Scheme::CKKS, n, chain_cached(n, bits), 0);
+            for lp in 1..=20usize {
+                for entry in [Entry::I64Single, Entry::F64Single, Entry::F64Poly, Entry::C64Single, Entry::C64Array] {
+                    cases.push(PrimesCase { spec: spec.clone(), level_primes: lp, entry });
+                }
+            }
+        }
+    }
+    cases.sort_by_key(|c| (c.spec.n, c.level_primes));
+    let bound = format!(
+        "N in {:?} x 20-prime chains {:?} x EVERY level 1..20 primes (key level included) x five entry points x scales {{2^20, 2^100, 2^150, 2^min(B-6,990)}} that fit the level (64-bit, 128-bit, 3-word and all-word paths; 1..16 words of a scaled coefficient) x inputs: vector / list families unit-first(1), unit-last(full), const(full), alt(full-1), 7-cycle(full, 65), ramp(65); reals {{1,-1.5,0.3,-1.9999999999999998,2.5,-0.5}}; complex {{(-.75,.25),-i,1,(.3,-.7)}}; integers {{1,-1,3,+-5e6,-(2^40+1),+-(2^62+12345),i64::MAX,i64::MIN}} that fit",
+        pdeg,
+        pchains.iter().map(|b| if b.iter().all(|x| *x == b[0]) { format!("{}x{}", b[0], b.len()) } else { format!("{:?}", b) }).collect::<Vec<_>>()
+    );
+    v.push(E1::new("big_primes", &bound, cases.into_iter(), move |c: &PrimesCase| check_primes("big_primes", c, seed)).deadline(Duration::from_secs(240)).batch(1).share(if thorough { 0.3 } else { 1.0 }));
     v
 }
